@@ -10,6 +10,7 @@ _spelling = fam_text.Spelling()
 _stream = fam_stream.Stream()
 _calls = fam_stream.Calls()
 _foreign = fam_stream.Foreign()
+_specfile = fam_stream.SpecFile()
 _truncate = fam_stream.Truncate()
 _order = fam_stream.Order()
 _header = fam_stream.HeaderFam()
@@ -22,7 +23,7 @@ _stats = fam_dom.Stats()
 _alias = fam_dom.Alias()
 _attrs = fam_dom.Attrs()
 
-_all = [_split, _codec, _spelling, _stream, _calls, _foreign, _truncate, _order, _header, _chunk, _nesting, _fuzz, _hunks,
+_all = [_split, _codec, _spelling, _stream, _calls, _foreign, _specfile, _truncate, _order, _header, _chunk, _nesting, _fuzz, _hunks,
         _dom, _stats, _alias, _attrs]
 try:
     import fam_lex
@@ -40,7 +41,7 @@ JSON = 'json.loads is a per-case oracle recorded from the implementation run; js
 PROPS = {
     'C01': dict(families=[_stream, _nesting], extra_props=['C01_sequence'], trusted_base=[PY, CODECS, JSON]),
     'C02': dict(families=[_stream, _calls], extra_props=['C02_spec'], trusted_base=[PY, CODECS, JSON]),
-    'C03': dict(families=[_foreign], trusted_base=[PY, CODECS, JSON]),
+    'C03': dict(families=[_foreign, _specfile], extra_props=['C03_spec'], trusted_base=[PY, CODECS, JSON]),
     'C04': dict(families=[_nesting, _stream], trusted_base=[PY, CODECS]),
     'C05': dict(families=[_dom], extra_props=['C05_full'], trusted_base=[PY, CODECS, JSON]),
     'C06': dict(families=[_dom], extra_props=['C06_full'], trusted_base=[PY, CODECS, JSON]),
@@ -50,7 +51,7 @@ PROPS = {
     'C09': dict(families=[_calls], trusted_base=[PY, CODECS]),
     'C10': dict(families=[_order], trusted_base=[PY]),
     'C11': dict(families=[_header], trusted_base=[PY, 'sys.get_int_max_str_digits() = 4300']),
-    'C12': dict(families=[_foreign, _header], trusted_base=[PY]),
+    'C12': dict(families=[_foreign, _header, _specfile], extra_props=['C12_file'], trusted_base=[PY]),
     'C13': dict(families=[_stats], trusted_base=[PY, CODECS]),
     'C14': dict(families=[_hunks], trusted_base=[PY]),
     'C15': dict(families=[_spelling], trusted_base=[PY, 'the codec catalogue rows are facts read from the running CPython by gen/gen_codecs.py']),
